@@ -79,7 +79,7 @@ def regenerate(needed=None):
     FAILED_GEN.clear()
     tmp = tempfile.mkdtemp(prefix="gen", dir=BUILD)
     try:
-        for tool, files, extra in (("go2lean", ["Counts.lean", "Sizes.lean"], []), ("gofacts", ["Tables.lean", "Cmds.lean"], []),
+        for tool, files, extra in (("go2lean", ["Counts.lean", "Sizes.lean"], []), ("gofacts", ["Tables.lean", "Cmds.lean", "Flows.lean"], []),
                                    ("gostr2lean", ["Strs.lean"], ["strs"]), ("gostr2lean", ["Objs.lean"], ["objs"])):
             rc, o, e = run([os.path.join(BIN, tool), REPO, tmp] + extra)
             if rc != 0:
@@ -118,7 +118,7 @@ def build_driver_model():
     rc, out = lake_build(["gsmodel"])
     if rc != 0:
         msg = "the regenerated Gen/*.lean no longer compiles together with the model driver: " + first_error(out)
-        gen_fallback(["Counts.lean", "Sizes.lean", "Tables.lean", "Cmds.lean", "Strs.lean", "Objs.lean"])
+        gen_fallback(["Counts.lean", "Sizes.lean", "Tables.lean", "Cmds.lean", "Strs.lean", "Objs.lean", "Flows.lean"])
         rc2, out2 = lake_build(["gsmodel"])
         if rc2 != 0:
             raise SystemExit("gsmodel does not build even with baseline Gen:\n" + out2[-3000:])
@@ -392,7 +392,7 @@ def main():
     if not args.no_prove:
         rc_all, out_all = lake_build(["GitSizer"])
         if rc_all != 0 or broken:
-            gen_fallback(["Counts.lean", "Sizes.lean", "Tables.lean", "Cmds.lean", "Strs.lean", "Objs.lean"])
+            gen_fallback(["Counts.lean", "Sizes.lean", "Tables.lean", "Cmds.lean", "Strs.lean", "Objs.lean", "Flows.lean"])
             rc2, out2 = lake_build(["gsmodel"])
             if rc2 != 0:
                 raise SystemExit("gsmodel does not build with baseline Gen:\n" + out2[-3000:])
